@@ -32,8 +32,33 @@ def nshards(tier):
     return 16
 
 
+HISTORY = {'other': None}
+
+
 def make(spec, cls=None):
+    """A container over spec's span whose cells hold their own positions.  With a 'history', the
+    container is first built over a *shifted* span of the same type, every label is looked up (so that
+    any internal bookkeeping is populated), and it is then reindexed to the span under test."""
     from fsic.core import VectorContainer
+    other = HISTORY['other']
+    if other is not None:
+        c = (cls or VectorContainer)(other.make())
+        c.add_variable('X', np.arange(other.n, dtype=float) - 50)
+        c.add_variable('K', np.arange(other.n, dtype=np.int64) - 70)
+        for i in range(other.n):
+            for lab in other.labels[i]:
+                if lab is not None:
+                    c['X', lab]
+                    c['K', lab:lab]
+        for lab in list(spec.absent) + [l[0] for l in spec.labels]:
+            try:
+                c['X', lab]
+            except Exception:
+                pass
+        c = c.reindex(spec.make())
+        c.X = [float(i) for i in range(spec.n)]
+        c.K = [100 + i for i in range(spec.n)]
+        return c
     c = (cls or VectorContainer)(spec.make())
     c.add_variable('X', np.arange(spec.n, dtype=float))
     c.add_variable('K', np.arange(100, 100 + spec.n, dtype=np.int64))
@@ -217,6 +242,15 @@ def run_shard(ctx):
             continue
         ctx.seen('span_kinds', spec.kind)
         check_spec(ctx, spec)
+        # the same checks on a container that reached this span through lookups on a shifted span + reindex()
+        others = [o for o in spans.catalogue(spec.n + 1, origin=2) + spans.catalogue(max(spec.n - 1, 1), origin=-1) if o.kind == spec.kind]
+        if others:
+            HISTORY['other'] = others[(si + ctx.seed) % len(others)]
+            try:
+                ctx.count('reindexed_history_specs')
+                check_spec(ctx, spec)
+            finally:
+                HISTORY['other'] = None
         if si % 3 == 0:
             # the same access paths on a model (ModelInterface overrides values/size, not item access)
             class M(fsic.BaseModel):
